@@ -237,11 +237,12 @@ Qed.
 Lemma stage3_additive c : additive (stage3 c).
 Proof. unfold stage3. destruct (celim c); [apply additive_rflat|apply additive_ok]. Qed.
 
-Theorem resolve_gen_fused listified b circ : passes_complete = true ->
-  resolve_gen true listified b circ =
-  rbind (parse_basis_gen listified b) (fun ck => rflat (resolve_gate (fst ck) (snd ck)) circ).
+Theorem resolve_gen_fused fl b circ : passes_complete = true ->
+  resolve_gen true fl basis_2q_order b circ =
+  rbind (parse_basis_gen fl b) (fun ck => rflat (resolve_gate (fst ck) (snd ck)) circ).
 Proof.
-  intros PC. unfold resolve_gen. destruct (parse_basis_gen listified b) as [[c keep]|]; simpl; [|reflexivity].
+  intros PC. unfold resolve_gen. change (first_2q_o basis_2q_order) with first_2q. change (stage2_o basis_2q_order) with stage2.
+  destruct (parse_basis_gen fl b) as [[c keep]|]; simpl; [|reflexivity].
   set (H := fun t => rbind (stage2 c t) (stage3 c)).
   assert (HA : additive H) by (apply additive_comp; [apply stage2_additive; exact PC|apply stage3_additive]).
   transitivity (rbind (rmapM (stage1 c keep) circ) (fun parts => H (concat (map (fun p => fst p ++ snd p) parts)))).
